@@ -1,24 +1,35 @@
 #!/bin/bash
 # fixed_replay.sh <out.json>: regression replays of findings that were FIXED in /repo, run against
 # the REAL crate (scratch copy of the working tree).  Each test asserts what the property demands,
-# so it PASSES while the fix is in place; a FAILED test is a violation with a real failing schedule.
+# so it PASSES while the fix is in place; a FAILED test (or one that does not terminate: TIMEOUT)
+# is a violation with a real failing schedule.
 REPO=${VERIF_REPO:-/repo}
 OUT=${1:-/dev/stdout}
 SCR=$(mktemp -d /tmp/vxfx_XXXXXX)
-trap 'rm -rf "$SCR"' EXIT
+trap 'pkill -f "$SCR/target" 2>/dev/null; rm -rf "$SCR"' EXIT
 rsync -a --exclude .git --exclude book "$REPO"/ "$SCR"/ 2>/dev/null
 for f in Cargo.toml Cargo.lock codegen README.md tests; do [ -e "$SCR/$f" ] || cp -r /repo/$f "$SCR/$f"; done
 [ -d "$SCR/target" ] || cp -r /repo/target "$SCR/target" 2>/dev/null
 cp /verif/known-findings/replay_serial.rs "$SCR/tests/vx_fixed_serial.rs"
+cp /verif/known-findings/replay_idle.rs "$SCR/tests/vx_fixed_idle.rs"
 mkdir -p "$SCR/tests/features"; rm -rf "$SCR/tests/features/vx_kf"; cp -r /verif/known-findings/features "$SCR/tests/features/vx_kf"
 cd "$SCR"
-RUST_BACKTRACE=0 CARGO_NET_OFFLINE=true timeout 2400 cargo test --offline --test vx_fixed_serial > fx.log 2>&1
+: > fx.log
+RUST_BACKTRACE=0 CARGO_NET_OFFLINE=true cargo test --offline --test vx_fixed_serial --test vx_fixed_idle --no-run >> fx.log 2>&1
+for t in vx_fixed_serial vx_fixed_idle; do
+  RUST_BACKTRACE=0 CARGO_NET_OFFLINE=true timeout 90 cargo test --offline --test $t >> fx.log 2>&1
+  [ $? -eq 124 ] && echo "VX-TIMEOUT $t" >> fx.log
+done
 python3 - "$OUT" <<'PY'
 import re, sys, json
 log = open('fx.log', errors='replace').read()
 rows = []
 for m in re.finditer(r"^test (\w+) \.\.\. (\w+)", log, re.M):
     rows.append(dict(test=m.group(1), result=m.group(2)))
+names = {"vx_fixed_serial": "serial_scenario_runs_alone", "vx_fixed_idle": "run_terminates_when_the_parser_is_slower_than_the_scenarios"}
+for m in re.finditer(r"^VX-TIMEOUT (\w+)", log, re.M):
+    rows = [r for r in rows if r["test"] != names[m.group(1)]]
+    rows.append(dict(test=names[m.group(1)], result="TIMEOUT"))
 json.dump(dict(tests=rows, log_tail=log[-3000:]), open(sys.argv[1], "w"), indent=1)
 for r in rows: print(r["test"], r["result"])
 PY
